@@ -19,9 +19,13 @@ A violation is *recorded* (ST.violations), never raised into the repo code, so a
 from __future__ import annotations
 
 import functools
+import os
 import sys
 
-import numpy as np
+for _v in ("OPENBLAS_NUM_THREADS", "OMP_NUM_THREADS", "MKL_NUM_THREADS"):
+    os.environ.setdefault(_v, "1")  # before numpy: shards run side by side, one BLAS thread each
+
+import numpy as np  # noqa: E402
 
 from vf.ref import rowspace as RS
 
@@ -43,6 +47,7 @@ class State:
         self.yield_check_cap = 64  # yielded schedules fully checked per search (the rest is counted)
         self.installed = False
         self.sites = {}
+        self.template_log = None  # set to a list to record the raw templates of top-level searches
 
     def reset_case(self):
         self.search_depth = 0  # >0 while the body of a top-level scheduler_backtrack is executing
@@ -88,7 +93,10 @@ def values(bounds, mats, offs):
     """(N, R_total) matrix: row p = concatenation over operands of A_i @ p + b_i."""
     P = box_points(bounds)
     n = len(bounds)
-    ms = [np.asarray(m, dtype=np.int64).reshape(-1, n) for m in mats]
+    ms = []
+    for m in mats:
+        m = np.asarray(m, dtype=np.int64)
+        ms.append(m if (m.ndim == 2 and m.shape[1] == n) else m.reshape(len(m), n))
     os_ = [np.asarray(o, dtype=np.int64).reshape(-1) for o in offs]
     M = np.concatenate(ms, axis=0) if ms else np.zeros((0, n), dtype=np.int64)
     o = np.concatenate(os_) if os_ else np.zeros((0,), dtype=np.int64)
@@ -144,9 +152,21 @@ def img_describe(a):
 
 
 # raw numbers of the observed objects ------------------------------------------------------------
+def _mat(M, ncols):
+    """int64 (rows x ncols) copy of a matrix-like (also when it has 0 rows or 0 columns)."""
+    M = np.array(M, dtype=np.int64)
+    if M.ndim == 2 and M.shape[1] == ncols:
+        return M
+    return M.reshape(len(M), ncols)
+
+
 def raw_pattern(p):
-    A = np.asarray(p.pattern.A)
-    return tuple(p.bounds), np.array(A, dtype=np.int64).reshape(A.shape[0], len(p.bounds)) if A.ndim == 2 else A, np.array(p.pattern.b, dtype=np.int64)
+    """(bounds, A, b) copied out of an AccessPattern-like object (plain attribute reads only)."""
+    bounds = tuple(p.bounds)
+    A = np.array(p.pattern.A, dtype=np.int64)
+    if A.ndim != 2 or A.shape[1] != len(bounds):
+        raise ValueError("pattern matrix does not fit the bounds")
+    return bounds, A, np.array(p.pattern.b, dtype=np.int64).reshape(-1)
 
 
 def raw_collection(c):
@@ -450,8 +470,8 @@ def fit_check(template_raw, sched_raw, requested, where):
         ST.bump("fit_short_schedule(n<T):compared-with-innermost-n-template-dims")
     # (1) row spaces
     for i, ((_, As, _), (_, At, _)) in enumerate(zip(sched_raw, template_raw)):
-        As = np.asarray(As, dtype=np.int64).reshape(-1, n)
-        At = np.asarray(At, dtype=np.int64).reshape(-1, T)
+        As = _mat(As, n)
+        At = _mat(At, T)
         S = As[:, n - w :] if w else As[:, :0]
         Tm = trimmed_template(At, As.shape[0])[:, T - w :] if w else At[:, :0]
         ST.bump("eval:fit_rowspace")
@@ -479,7 +499,7 @@ def fit_check(template_raw, sched_raw, requested, where):
                 where,
             )
     # (3) requested constraints, re-evaluated on the final schedule
-    mats = [np.asarray(r[1], dtype=np.int64).reshape(-1, n) for r in sched_raw]
+    mats = [_mat(r[1], n) for r in sched_raw]
     for kind, param in sorted(requested.items(), key=lambda kv: kv[0]):
         if kind == "os":
             ok, how = semantic_output_stationary(sb, mats[-1], T)
@@ -710,8 +730,8 @@ def _wrap_matches(orig):
             if n < T:
                 ST.bump("out_of_domain:matches:schedule-has-fewer-dims")
                 return res
-            At = np.asarray(self.pattern.A, dtype=np.int64).reshape(-1, T)
-            As = np.asarray(sp.pattern.A, dtype=np.int64).reshape(-1, n)
+            At = _mat(self.pattern.A, T)
+            As = _mat(sp.pattern.A, n)
             if not _bounded(At, As):
                 ST.bump("out_of_domain:matches:entries>64")
                 return res
@@ -803,6 +823,8 @@ def _monitored_search(orig, template, schedule, inner_dims, extra_checks):
         domain = "unreadable-input:" + type(e).__name__
     if domain:
         ST.bump("out_of_domain:search:" + domain)
+    if t_raw is not None and getattr(ST, "template_log", None) is not None and len(ST.template_log) < 8:
+        ST.template_log.append(t_raw)
     req_tagged, unknown = _requested_from(extra_checks, _ORIG)
     if unknown:
         ST.bump("untagged_extra_checks", unknown)
@@ -894,3 +916,290 @@ def _wrap_scheduler(orig):
 
     scheduler._vf_orig = orig
     return scheduler
+
+
+# ================================================================================================
+# drivers: push one generated case (vf.gen.sched_gen) through the REAL api with the monitors on.
+# They return an `info` dict; violations are left in ST (take_violations()).
+# ================================================================================================
+def make_checks(names, sizes):
+    """Extra checks for the real scheduler: the repo's own constraint functions (looked up through the module, i.e. the
+    monitored bindings), tagged so that the yield monitor knows what was requested."""
+    import snaxc.ir.dart.scheduler as SCH
+
+    out = []
+    for nm in names:
+        if nm == "os":
+            out.append(tag(SCH.is_pure_output_stationary, "os"))
+        elif nm == "mem":
+            sz = tuple(sizes)
+            out.append(tag(lambda t, s, sz=sz: SCH.is_memory_flexible_enough(t, s, list(sz)), "mem", sz))
+        elif nm.startswith("chan:"):
+            cd = int(nm.split(":")[1])
+            out.append(tag(lambda t, s, cd=cd: SCH.is_output_channel_stationary(t, s, cd), "chan", cd))
+    return out
+
+
+def drive_search(case, cap=48, seconds=3.0, also_scheduler=True):
+    from vf.ctx import PassTimeout, time_limit
+    from vf.gen import sched_gen as G
+
+    import snaxc.ir.dart.scheduler as SCH
+
+    info = {"yields": 0, "rejected": [], "timeout": False, "exhausted": False, "tiled": 0, "changed": 0, "scheduler_calls": 0}
+    ST.reset_case()
+    try:
+        template = G.build_template(case["tbounds"], case["tmats"])
+        schedule = G.build_schedule(case["sbounds"], case["smats"], case.get("soffs"))
+    except Exception as e:
+        info["rejected"].append(e)
+        return info
+    checks = make_checks(case.get("checks", ()), case.get("sizes", ()))
+    try:
+        with time_limit(seconds):
+            gen = SCH.scheduler_backtrack(template, schedule, extra_checks=checks)
+            try:
+                for _ in gen:
+                    info["yields"] += 1
+                    if info["yields"] >= cap:
+                        break
+                else:
+                    info["exhausted"] = True
+            finally:
+                gen.close()
+            if ST.search_log:
+                info["tiled"] = ST.search_log[0]["tiled"]
+                info["changed"] = ST.search_log[0]["changed"]
+            if also_scheduler:
+                # the public entry point: first result, and the k-th one when the enumeration is known to be small
+                try:
+                    info["scheduler_calls"] += 1
+                    SCH.scheduler(template, schedule, extra_checks=checks)
+                except (StopIteration, IndexError) as e:
+                    info["rejected"].append(e)
+                idx = case.get("idx")
+                if idx is not None and info["exhausted"]:
+                    try:
+                        info["scheduler_calls"] += 1
+                        SCH.scheduler(template, schedule, extra_checks=checks, schedule_idx=idx)
+                    except (StopIteration, IndexError) as e:
+                        info["rejected"].append(e)
+    except PassTimeout:
+        info["timeout"] = True
+    except RecursionError as e:
+        info["rejected"].append(e)
+    except Exception as e:  # the scheduler refused / crashed on this input: rejection, never a violation
+        info["rejected"].append(e)
+    finally:
+        ST.search_depth = 0
+        ST.suppress = 0
+    return info
+
+
+def _divisors(b):
+    return [d for d in range(1, b + 1) if b % d == 0]
+
+
+def drive_elementary(case):
+    """All rotations, tilings by divisors (and one non-divisor, outside tile_dim's domain), add_dim, clear_unused_dims,
+    canonicalize on the Schedule and on its first pattern, then the random chain of the case."""
+    from vf.gen import sched_gen as G
+
+    info = {"calls": 0, "rejected": [], "changedA": 0}
+    ST.reset_case()
+    try:
+        S = G.build_schedule(case["sbounds"], case["smats"], case.get("soffs"))
+    except Exception as e:
+        info["rejected"].append(e)
+        return info
+    n = len(case["sbounds"])
+
+    def call(obj, meth, *args):
+        info["calls"] += 1
+        try:
+            return getattr(obj, meth)(*args)
+        except Exception as e:
+            info["rejected"].append(e)
+            return None
+
+    first = S[0] if len(S) else None
+    for d in range(1, n + 1):
+        call(S, "rotate", d)
+        if first is not None and d % 2 == 1:
+            call(first, "rotate", d)
+    for d in range(n):
+        b = case["sbounds"][d]
+        divs = _divisors(b)
+        pick = sorted({divs[0], divs[-1], divs[len(divs) // 2]})
+        for t in pick:
+            call(S, "tile_dim", d, t)
+        if first is not None:
+            call(first, "tile_dim", d, divs[len(divs) // 2])
+        nd = next((t for t in range(2, b + 2) if b % t != 0), None)
+        if nd is not None and d == 0:
+            call(S, "tile_dim", d, nd)  # out of the documented domain: counted, not judged
+    call(S, "add_dim")
+    call(S, "clear_unused_dims")
+    call(S, "canonicalize")
+    if first is not None:
+        call(first, "add_dim")
+        call(first, "canonicalize")
+    cur = S
+    for op, x, y in case.get("chain", ()):
+        if cur is None:
+            break
+        nd = cur.num_dims if len(cur) else 0
+        if op == "rotate":
+            if nd >= 1:
+                cur = call(cur, "rotate", 1 + int(x * nd) % nd)
+        elif op == "tile":
+            if nd >= 1:
+                d = int(x * nd) % nd
+                divs = _divisors(cur[0].bounds[d])
+                cur = call(cur, "tile_dim", d, divs[int(y * len(divs)) % len(divs)])
+        elif op == "add_dim":
+            cur = call(cur, "add_dim")
+        elif op == "clear":
+            cur = call(cur, "clear_unused_dims")
+        elif op == "canon":
+            cur = call(cur, "canonicalize")
+    return info
+
+
+def drive_matches(case):
+    import numpy as np
+
+    import snaxc.ir.dart.access_pattern as AP
+    from snaxc.ir.dart.affine_transform import AffineTransform
+
+    info = {"rejected": [], "result": None}
+    ST.reset_case()
+    try:
+        T = len(case["tbounds"])
+        n = len(case["sbounds"])
+        At = np.array(case["tmat"], dtype=np.int_).reshape(len(case["tmat"]), T)
+        As = np.array(case["smat"], dtype=np.int_).reshape(len(case["smat"]), n)
+        tp = AP.TemplatePattern(tuple(case["tbounds"]), AffineTransform(At, np.zeros(len(At), dtype=np.int_)))
+        sp = AP.SchedulePattern(tuple(case["sbounds"]), AffineTransform(As, np.zeros(len(As), dtype=np.int_)))
+        info["result"] = bool(tp.matches(sp))
+        if n == T:
+            # the bare predicate as well, both argument orders (row-space equality is symmetric)
+            AP.same_nonzero_singular_vectors(As, At)
+    except Exception as e:
+        info["rejected"].append(e)
+    return info
+
+
+# ---- pass level ---------------------------------------------------------------------------------
+def affine_map_matrix(amap):
+    """(A, b) of an xDSL AffineMap by unit responses (uses only AffineMap.eval of xDSL)."""
+    n = amap.num_dims
+    zero = [0] * n
+    b = [int(v) for v in amap.eval(zero, [])]
+    A = [[0] * n for _ in b]
+    for d in range(n):
+        e = list(zero)
+        e[d] = 1
+        col = amap.eval(e, [])
+        for r, v in enumerate(col):
+            A[r][d] = int(v) - b[r]
+        # linearity probe (floordiv/mod maps are outside the monitored domain)
+        e[d] = 2
+        col2 = amap.eval(e, [])
+        for r, v in enumerate(col2):
+            if int(v) - b[r] != 2 * A[r][d]:
+                raise ValueError("non-linear affine map")
+    return A, b
+
+
+def operation_box(op):
+    """Iteration bounds of a dart.operation, derived from operand shapes: the bound of dim d is the extent of the first
+    operand dimension that is indexed by exactly d (what get_static_pattern_bounds documents)."""
+    mats = []
+    shapes = []
+    for attr, operand in zip(op.patterns.data, op.operands):
+        mats.append(affine_map_matrix(attr.data))
+        shapes.append([int(x) for x in operand.type.get_shape()])
+    n = op.patterns.data[0].data.num_dims
+    bounds = [None] * n
+    for (A, b), shape in zip(mats, shapes):
+        for r, row in enumerate(A):
+            nz = [d for d, c in enumerate(row) if c != 0]
+            if len(nz) == 1 and row[nz[0]] == 1 and b[r] == 0 and bounds[nz[0]] is None:
+                bounds[nz[0]] = shape[r]
+    return bounds, mats
+
+
+def drive_pass(ctx, case, seconds=10.0):
+    """dart.operation -> real dart-scheduler -> dart.schedule; compares img before/after.  The scheduler monitors are
+    active inside the pass as well (the pass reaches scheduler() through its own `from ... import`)."""
+    from vf.ctx import PassTimeout, parse, run_passes_limited
+
+    info = {"rejected": [], "timeout": False, "compared": False, "emitted": False, "changed": False, "n_out": None, "generator_invalid": False}
+    ST.reset_case()
+    try:
+        module = parse(ctx, case["text"])
+        module.verify()
+    except Exception as e:
+        info["generator_invalid"] = True
+        info["rejected"].append(e)
+        return info
+    ops = [o for o in module.walk() if o.name == "dart.operation"]
+    if len(ops) != 1:
+        info["generator_invalid"] = True
+        return info
+    try:
+        bounds, mats = operation_box(ops[0])
+    except Exception as e:
+        info["generator_invalid"] = True
+        info["rejected"].append(e)
+        return info
+    if any(b is None for b in bounds) or ("bounds" in case and list(case["bounds"]) != bounds):
+        info["generator_invalid"] = True
+        return info
+    if n_points(bounds) > MAX_POINTS:
+        ST.bump("out_of_domain:pass:box-too-large")
+        return info
+    before = img(bounds, [np.array(A, dtype=np.int64).reshape(len(A), len(bounds)) for A, _ in mats], [np.array(b, dtype=np.int64) for _, b in mats])
+    spec = f"insert-accfg-op{{accelerator={case['accelerator']}}},dart-scheduler"
+    try:
+        run_passes_limited(ctx, module, spec, seconds)
+    except PassTimeout:
+        info["timeout"] = True
+        return info
+    except BaseException as e:
+        if isinstance(e, (KeyboardInterrupt, SystemExit)):
+            raise
+        info["rejected"].append(e)
+        return info
+    finally:
+        ST.search_depth = 0
+        ST.suppress = 0
+    outs = [o for o in module.walk() if o.name == "dart.schedule"]
+    if len(outs) != 1:
+        ST.bump("pass_left_operation_unscheduled")
+        return info
+    info["emitted"] = True
+    so = outs[0]
+    try:
+        ob = [int(a.value.data) for a in so.bounds.data]
+        omats = [affine_map_matrix(attr.data) for attr in so.patterns.data]
+        if n_points(ob) > 4 * MAX_POINTS:
+            ST.bump("out_of_domain:pass:emitted-box-too-large")
+            return info
+        after = img(ob, [np.array(A, dtype=np.int64).reshape(len(A), len(ob)) for A, _ in omats], [np.array(b, dtype=np.int64) for _, b in omats])
+    except Exception as e:
+        ST.bump("oracle_error:pass:" + type(e).__name__)
+        return info
+    info["compared"] = True
+    info["n_out"] = len(ob)
+    info["changed"] = len(ob) != len(bounds) or any(a[0] != b[0] for a, b in zip(mats, omats))
+    ST.bump("eval:pass_img")
+    if not img_equal(before, after):
+        ST.violation(
+            "pass-changes-iteration-space",
+            f"dart-scheduler: dart.operation bounds {bounds} patterns {[m[0] for m in mats]} offsets {[m[1] for m in mats]} ({img_describe(before)}) "
+            f"became dart.schedule bounds {ob} patterns {[m[0] for m in omats]} offsets {[m[1] for m in omats]} ({img_describe(after)})",
+            "dart-scheduler",
+        )
+    return info
